@@ -751,7 +751,15 @@ class Parser:
                 self.current = next(self.stream)
 
         except StopIteration:
-            self.current = Token('eof', '', self.current.line_start, self.current.lineno, self.current.colno + self.current.bytespan[1] - self.current.bytespan[0], (0, 0), None)
+            start, end = self.current.bytespan
+            code = self.lexer.code
+            if '\n' in code[start:end - 1]:
+                # The last token spans several lines: the end of input is on its last line
+                line_start = code.rfind('\n', 0, end - 1) + 1
+                lineno = self.current.lineno + code.count('\n', start, end - 1)
+                self.current = Token('eof', '', line_start, lineno, end - line_start, (0, 0), None)
+            else:
+                self.current = Token('eof', '', self.current.line_start, self.current.lineno, self.current.colno + end - start, (0, 0), None)
 
     def getline(self) -> str:
         return self.lexer.getline(self.current.line_start)
